@@ -75,6 +75,16 @@ pub struct Scn {
     /// all bytes, byte sum, first and last byte) collide with the first keyring entry's
     #[serde(default)]
     pub lookalike_sender: bool,
+    /// the keyring's decoy entry is named like the recipient (encrypt) / like the sender (decrypt) with the
+    /// ASCII case of its letters flipped, and comes first: names are case-sensitive
+    #[serde(default)]
+    pub case_decoy: bool,
+    /// the pre-existing output file is itself a kestrel password file (an earlier run's result)
+    #[serde(default)]
+    pub prior_is_kestrel_file: bool,
+    /// -k is given AND KESTREL_KEYRING points to another keyring: the option must win
+    #[serde(default)]
+    pub env_keyring_decoy: bool,
 }
 
 pub struct B1;
@@ -125,12 +135,23 @@ pub fn world(seed: u64) -> World {
     World { names, sks: [r.arr32(), r.arr32(), r.arr32()], pws, salts: [r.arr32(), r.arr32(), r.arr32()], file_pw: format!("file-{}", r.below(1000000)) }
 }
 
-fn keyring_for(w: &World, op: &Op, pos: &SenderPos, bad_decoy: bool) -> String {
-    let t = keyring_for_inner(w, op, pos);
+fn flip_case(s: &str) -> String {
+    s.chars().map(|c| if c.is_ascii_lowercase() { c.to_ascii_uppercase() } else if c.is_ascii_uppercase() { c.to_ascii_lowercase() } else { c }).collect()
+}
+
+fn keyring_for(w: &World, op: &Op, pos: &SenderPos, bad_decoy: bool, case_decoy: bool) -> String {
+    let mut t = keyring_for_inner(w, op, pos);
+    if case_decoy {
+        // one more entry, in front: same name as the key the command will look up, other letter case, other key
+        let looked_up = if *op == Op::Encrypt { &w.names[1] } else { &w.names[1] };
+        let decoy_sk = rp::sha256(w.names[2].as_bytes());
+        let entry = format!("[Key]\nName = {}\nPublicKey = {}\n\n", flip_case(looked_up), rk::encode_pk(&rp::x25519_base(&decoy_sk)));
+        t = format!("{}{}", entry, t);
+    }
     if !bad_decoy {
         return t;
     }
-    // corrupt the checksum of the decoy (carol): flip the last character of its PublicKey value
+    // (decoy with a bad checksum)
     let good = rk::encode_pk(&rp::x25519_base(&w.sks[2]));
     let mut bad = good.clone().into_bytes();
     let l = bad.len() - 1;
@@ -224,12 +245,14 @@ impl Family for B1 {
         "b1"
     }
     fn properties(&self) -> &'static [&'static str] {
-        &["C12", "C07", "C08", "C05"]
+        &["C12", "C07", "C08", "C05", "C03"]
     }
     fn budget(&self, tier: Tier, p: &str) -> u64 {
         let q = match p {
             "C12" => 160,
-            "C05" => 60,
+            "C05" => 150,
+            "C07" => 80,
+            "C03" => 80,
             _ => 30,
         };
         q * match tier {
@@ -240,8 +263,8 @@ impl Family for B1 {
     fn generate(&self, rng: &mut Rng, tier: Tier, _idx: u64) -> Scn {
         let op = match rng.below(10) {
             0..=2 => Op::Encrypt,
-            3..=6 => Op::Decrypt,
-            7 => Op::PassEncrypt,
+            3..=5 => Op::Decrypt,
+            6 | 7 => Op::PassEncrypt,
             _ => Op::PassDecrypt,
         };
         let material = if rng.chance(1, 2) {
@@ -288,6 +311,7 @@ impl Family for B1 {
             1 => SenderPos::Last,
             _ => SenderPos::Absent,
         };
+        let is_encryption = matches!(op, Op::PassEncrypt | Op::Encrypt);
         Scn {
             op,
             material,
@@ -299,14 +323,18 @@ impl Family for B1 {
             in_name: if rng.chance(1, 4) { Some((*rng.pick(&["enc", "dec", "pass", "gen", "key", "password", "decrypt", "-t", "a b.bin", "ünï.bin"])).to_string()) } else { None },
             out_name: if rng.chance(1, 6) { Some((*rng.pick(&["enc", "dec", "pass", "out put", "encrypt"])).to_string()) } else { None },
             lookalike_sender,
-            prior_output_len: if rng.chance(1, 3) { Some(len + 200 + rng.usize_below(100000)) } else { None },
+            case_decoy: rng.chance(1, 4),
+            prior_is_kestrel_file: rng.chance(1, 2),
+            env_keyring_decoy: rng.chance(1, 3),
+            // encryptions are often second runs onto the same output name
+            prior_output_len: if rng.chance(1, 3) || (is_encryption && rng.chance(1, 2)) { Some(len + 200 + rng.usize_below(100000)) } else { None },
             decoy_bad_checksum: rng.chance(1, 3),
         }
     }
 
     fn execute(&self, s: &Scn) -> RunOut {
         let mut out = RunOut::default();
-        out.props = vec!["C12", "C07", "C08", "C05"];
+        out.props = vec!["C12", "C07", "C08", "C05", "C03"];
         let mut w = world(s.seed % 16); // small pool of key worlds: the reference scrypt cache hits
         let mut sender_pos = s.sender_pos.clone();
         if s.lookalike_sender && s.op == Op::Decrypt {
@@ -356,7 +384,7 @@ impl Family for B1 {
             _ => input,
         };
         let valid = s.material == Material::Valid;
-        let kr_text = keyring_for(&w, &s.op, &s.sender_pos, s.decoy_bad_checksum);
+        let kr_text = keyring_for(&w, &s.op, &s.sender_pos, s.decoy_bad_checksum, s.case_decoy);
         let mut results: Vec<(i32, Option<Vec<u8>>, String)> = vec![];
         let mut produced_files: Vec<Vec<u8>> = vec![];
         let mut runs: Vec<(Wiring, Option<u64>)> = s.wirings.iter().map(|wi| (wi.clone(), Some(s.seed ^ 0x5eed))).collect();
@@ -381,13 +409,30 @@ impl Family for B1 {
                 w2
             };
             sb.write(&in_name, &input);
+            let mut prior_salt: Option<Vec<u8>> = None;
             if let (Some(n), true) = (s.prior_output_len, wi.out_opt) {
-                sb.write(&out_name, &crate::rng::fill(n, s.seed ^ 0x01d));
+                if s.prior_is_kestrel_file {
+                    // what an earlier `password encrypt -o` of a longer file left here
+                    let old_salt = Rng::new(s.seed ^ 0x0a17).arr32();
+                    let old_pt = crate::rng::fill(n, s.seed ^ 0x01d);
+                    let f = rf::write_pass_file(&crate::ops::ref_scrypt_cached(w.file_pw.as_bytes(), &fsalt), &old_salt, &old_pt, &crate::gen::full_chunking(old_pt.len(), 65536));
+                    prior_salt = Some(f[4..36].to_vec());
+                    sb.write(&out_name, &f);
+                } else {
+                    sb.write(&out_name, &crate::rng::fill(n, s.seed ^ 0x01d));
+                }
+            }
+            if s.env_keyring_decoy && wi.keyring_opt && matches!(s.op, Op::Encrypt | Op::Decrypt) {
+                // another, perfectly valid keyring that lacks the keys this command needs
+                sb.write("other-keyring.txt", keyring_text(&[KeySpec { name: "someone-else-0001".into(), sk: rp::sha256(b"other keyring"), password: None, salt: [0u8; 32] }]).as_bytes());
             }
             let mut inv = build_inv(s, &w, wi, &in_name, &out_name);
             inv.entropy_seed = *ent;
             if let Stdin::Pipe(_) = inv.stdin {
                 inv.stdin = Stdin::Pipe(input.clone());
+            }
+            if s.env_keyring_decoy && wi.keyring_opt && matches!(s.op, Op::Encrypt | Op::Decrypt) {
+                inv = inv.env("KESTREL_KEYRING", "other-keyring.txt");
             }
             let fin = run(&sb, &inv);
             if ent.is_some() {
@@ -427,6 +472,16 @@ impl Family for B1 {
                     None => false,
                 },
             };
+            if code == 0 && !completed && s.op == Op::Encrypt && s.case_decoy {
+                // to whom was it encrypted, then? the decoy whose name differs only in letter case
+                if let Some(f) = &output {
+                    let decoy_sk = rp::sha256(w.names[2].as_bytes());
+                    let v = rf::accept_key_file(f, &decoy_sk, &rp::x25519_base(&decoy_sk));
+                    if v.chunks.accepted() {
+                        out.violations.push(viol("C05", "cli_encrypted_to_another_key", format!("wiring {}: `-t {}` produced a file that the key of '{}' decrypts and the addressed key does not", k, w.names[1], flip_case(&w.names[1]))));
+                    }
+                }
+            }
             if code == 0 && !completed {
                 out.violations.push(viol("C12", "exit_0_without_completion", format!("wiring {} ({:?} {:?}): exit 0 but the destination does not hold the {} result ({} bytes present)", k, s.op, s.material, if matches!(s.op, Op::Decrypt | Op::PassDecrypt) { "complete plaintext" } else { "file that the reference decrypts to the plaintext and sender" }, output.as_ref().map(|o| o.len()).unwrap_or(0))));
             }
@@ -435,6 +490,9 @@ impl Family for B1 {
             }
             if !valid && code == 0 {
                 out.violations.push(viol("C12", "invalid_operation_succeeded", format!("wiring {} ({:?} {:?}): exit 0", k, s.op, s.material)));
+                if matches!(s.material, Material::CorruptInput(_) | Material::TruncatedInput(_) | Material::ExtendedInput(_)) {
+                    out.violations.push(viol("C03", "cli_accepts_modified_file", format!("wiring {} ({:?} {:?}): the tool exited 0 on a file that is not authentic; output {} bytes, plaintext {} bytes", k, s.op, s.material, output.as_ref().map(|o| o.len()).unwrap_or(0), pt.len())));
+                }
             }
             // sender naming after a successful key decryption
             let mut report = String::new();
@@ -478,6 +536,11 @@ impl Family for B1 {
                     let want = hl + pt.len() + 32 * ((pt.len() + 65535) / 65536).max(1);
                     if f.len() != want {
                         out.violations.push(viol("C08", "size_cli", format!("file is {} bytes, expected {}", f.len(), want)));
+                    }
+                    if let Some(ps) = &prior_salt {
+                        if s.op == Op::PassEncrypt && f.len() >= 36 && f[4..36] == ps[..] {
+                            out.violations.push(viol("C07", "cli_salt_taken_from_replaced_file", "password encryption onto an existing kestrel file reused that file's salt".into()));
+                        }
                     }
                     produced_files.push(f.clone());
                 }
